@@ -189,7 +189,7 @@ def check_synrule(ctx):
     data = corpus.pickled()
     picks = [d for i, d in enumerate(data) if ctx.mine(i)]
     if ctx.quick:
-        picks = picks[:4]
+        picks = picks[:8]
     seen = {}
     for d in picks:
         rc = d["RC"]
@@ -207,11 +207,14 @@ def check_synrule(ctx):
         try:
             from synkit.IO.chem_converter import its_to_gml
             g1 = its_to_gml(rc, core=False, reindex=False)
-            g2 = its_to_gml(H, core=False, reindex=False)
-            f1, f2 = SynRule.from_gml(g1, canonicaliser=c), SynRule.from_gml(g2, canonicaliser=c)
-            ctx.count("synrule_from_gml_checked")
-            if not (f1 == f2 and hash(f1) == hash(f2)):
-                ctx.violation("synrule", {"rid": d.get("R-id"), "via": "from_gml"}, "SynRule.from_gml(nauty): a relabelled copy of the rule compares unequal")
+            f1 = SynRule.from_gml(g1, canonicaliser=c)
+            for _ in range(4):
+                H2, _m = WG.scramble(rc, rng)
+                f2 = SynRule.from_gml(its_to_gml(H2, core=False, reindex=rng.random() < 0.5), canonicaliser=c)
+                ctx.count("synrule_from_gml_checked")
+                if not (f1 == f2 and hash(f1) == hash(f2)):
+                    ctx.violation("synrule", {"rid": d.get("R-id"), "via": "from_gml"}, "SynRule.from_gml(nauty): a relabelled copy of the rule compares unequal")
+                    break
         except Exception:
             ctx.count("synrule_from_gml_failed")
         k = r1.canonical_smiles
